@@ -147,7 +147,6 @@ def _sanitise(wf: Dict[str, Any]):
                 if rep.get(p):
                     n = rep[p]
         rep[c["name"]] = n
-        # aggregate flag is only meaningful if some producer is replicated; drop it otherwise
-        if c.get("aggregate") and not any(rep.get(p) for p in c["refs"]):
-            del c["aggregate"]
+        # an aggregating component without any replicated producer is legal (e.g. replication switched off):
+        # keep it, it simply behaves like a single consumer that only shuts down with a shut-down input
     return wf
